@@ -358,6 +358,7 @@ X_Point3(e) ==
    /\ UniqueAppendOk(e.r.appended, e.a.pts, e.a.add, e.a.eps)
    /\ (e.a.pts # <<>> => e.r.d2 = Dist2(e.a.pts[1], e.a.add) /\ e.r.close = Close3(e.a.pts[1], e.a.add, e.a.eps))
    /\ e.r.almost = (Abs(e.a.dir[1] - e.a.add[1]) <= e.a.eps)
+X_ObjHistory(e) == Ok(e) /\ e.r = ObjRun(ObjInit, e.a.ops)
 X_Angles(e) == Ok(e) /\ e.r.raddev <= 4 /\ e.r.backdev <= 4
 
 \* ---- C19 ------------------------------------------------------------------
@@ -436,6 +437,7 @@ Explains(e) ==
       [] e.op = "Objects"              -> X_Objects(e)
       [] e.op = "Point3"               -> X_Point3(e)
       [] e.op = "Angles"               -> X_Angles(e)
+      [] e.op = "ObjHistory"           -> X_ObjHistory(e)
       [] e.op = "Law"                  -> X_Law(e)
       [] OTHER -> FALSE
 
@@ -501,6 +503,7 @@ Expected(e) ==
     [] e.op = "Project"              -> "Mercator within 1e-6 m, round trip within 2e-10 deg, altitude and list structure kept; unknown code = error"
     [] e.op = "Conc"                 -> "the result of the call executed alone"
     [] e.op \in {"CheckZoom", "ErrorValue", "Objects", "Point3", "Angles"} -> "see X_" \o e.op
+    [] e.op = "ObjHistory"           -> ObjRun(ObjInit, e.a.ops)
     [] e.op \in MachineOps          -> "next working set (see MachineNext); previous state is the previous line's ws"
     [] e.op = "Law"                  -> "both sides of the law must be equal"
     [] OTHER -> "no-spec-operator"
